@@ -352,3 +352,88 @@ func (g *Gen) RandomHistory(nblocks, maxTx int) (History, []Resp, *app.ShutterAp
 	}
 	return h, rs, a
 }
+
+// TransitionTx draws a transaction from a distribution biased towards validator-set
+// transitions: check-ins (first, late and repeated, with shared / placeholder / genesis keys),
+// block-seen reports at the activation block of an unstarted config, and votes for one
+// candidate config per history; the rest comes from NextTx.
+func (g *Gen) TransitionTx(a *app.ShutterApp) ([]byte, string) {
+	r := g.R
+	w := r.Intn(100)
+	switch {
+	case w < 35:
+		key := r.Intn(6)
+		vk := g.U.ValKeys[key]
+		switch r.Intn(12) {
+		case 0:
+			vk = g.U.ValKeys[r.Intn(6)]
+		case 1:
+			vk = []byte(app.NonExistentValidator.Ed25519pubkey)
+		case 2:
+			if len(g.G.Validators) > 0 {
+				vk = g.G.Validators[0].K
+			}
+		case 3, 4:
+			// a fresh key: a re-check-in after the fork changes the validator identity
+			vk = append([]byte{byte(0xE0 + r.Intn(4))}, g.U.ValKeys[key][1:]...)
+		}
+		m := &shmsg.Message{Payload: &shmsg.Message_CheckIn{CheckIn: &shmsg.CheckIn{ValidatorPublicKey: vk, EncryptionPublicKey: g.U.EncKeys[key]}}}
+		raw := SignTx(g.U.Keys[key], g.G.ChainID, g.nextNonce(), m)
+		g.sent = append(g.sent, raw)
+		return raw, fmt.Sprintf("checkin by key %d", key)
+	case w < 60:
+		bn := uint64(1)
+		for _, c := range a.Configs {
+			if !c.Started && c.ActivationBlockNumber > bn {
+				bn = c.ActivationBlockNumber
+			}
+		}
+		key := g.memberKey(a)
+		raw := SignTx(g.U.Keys[key], g.G.ChainID, g.nextNonce(), shmsg.NewBlockSeen(bn+uint64(r.Intn(2))))
+		g.sent = append(g.sent, raw)
+		return raw, fmt.Sprintf("blockseen by key %d", key)
+	case w < 85:
+		lc := a.Configs[len(a.Configs)-1]
+		if len(g.cands) == 0 || g.cands[0].GetBatchConfig().KeyperConfigIndex <= lc.KeyperConfigIndex {
+			n := 2 + r.Intn(3)
+			ks := []common.Address{}
+			for _, b := range g.someAddrs(n) {
+				ks = append(ks, common.BytesToAddress(b))
+			}
+			g.cands = []*shmsg.Message{shmsg.NewBatchConfig(lc.ActivationBlockNumber+uint64(1+r.Intn(2)), ks, uint64(1+r.Intn(n)), lc.KeyperConfigIndex+1)}
+		}
+		key := g.lastMemberKey(a)
+		raw := SignTx(g.U.Keys[key], g.G.ChainID, g.nextNonce(), g.cands[0])
+		g.sent = append(g.sent, raw)
+		return raw, fmt.Sprintf("vote by key %d", key)
+	}
+	return g.NextTx(a)
+}
+
+// TransitionHistory is RandomHistory with the transition-biased transaction distribution.
+func (g *Gen) TransitionHistory(nblocks, maxTx int) (History, []Resp, *app.ShutterApp) {
+	ge := g.RandomGenesis()
+	ge.DevMode = false
+	g.G = ge
+	a, err := NewApp(ge)
+	if err != nil {
+		panic(err)
+	}
+	h := History{Genesis: ge}
+	var rs []Resp
+	do := func(c Call) {
+		h.Calls = append(h.Calls, c)
+		rs = append(rs, Exec(a, c))
+	}
+	for b := 1; b <= nblocks; b++ {
+		do(Call{Kind: "begin", Height: int64(b)})
+		nt := 1 + g.R.Intn(maxTx)
+		for i := 0; i < nt; i++ {
+			raw, note := g.TransitionTx(a)
+			do(Call{Kind: "deliver", Tx: raw, Note: note})
+		}
+		do(Call{Kind: "end", Height: int64(b)})
+		do(Call{Kind: "commit"})
+	}
+	return h, rs, a
+}
